@@ -24,7 +24,7 @@ def tx(t, local_pkg_defs):
     if k == "set":
         return "set<%s>%s" % (tx(t["e"], local_pkg_defs), ' (go.type = "slice")' if t.get("slice") else "")
     if k == "map":
-        return "map<%s, %s>" % (tx(t["kt"], local_pkg_defs), tx(t["vt"], local_pkg_defs))
+        return "map<%s, %s>%s" % (tx(t["kt"], local_pkg_defs), tx(t["vt"], local_pkg_defs), ' (go.type = "slice")' if t.get("slice") else "")
     return t["n"] if t["n"] in local_pkg_defs else "base." + t["n"]
 
 
